@@ -323,8 +323,12 @@ pub fn check(case: &Case, env: &mut CaseEnv) -> Result<(), Failure> {
                     for i in 0..vals.len() {
                         let mut acc: i128 = 0;
                         for v in &vals[i..] {
-                            acc += *v;
-                            if acc == i64::MAX as i128 {
+                            acc = match acc.checked_add(*v) {
+                                Some(a) => a,
+                                None => break,
+                            };
+                            if acc == i64::MAX as i128 && !env.replay {
+                                // (a saved reproducer of the finding is judged: it must keep failing in the listed way)
                                 facts.hit_sentinel = true;
                                 break 'outer;
                             }
